@@ -4,9 +4,10 @@
 /* ---- blocking "everything finished" wait of the primary ULT ---------- */
 static ABT_eventual g_done_ev = ABT_EVENTUAL_NULL;
 static int g_main_waiting;
+static int g_wait_exts_only;
 static int all_done(void)
 {
-    for (int i = 0; i < G.nunit; i++) {
+    for (int i = 0; i < G.nunit && !g_wait_exts_only; i++) {
         actor *u = &G.unit[i];
         if (u->created && !u->cancelled && (u->ends != u->incarnation || u->running))
             return 0;
@@ -16,13 +17,30 @@ static int all_done(void)
             return 0;
     return 1;
 }
+static volatile int g_done_lock;
+static void done_lock(void)
+{
+    /* the holder may be descheduled inside the library: spin through dsched */
+    while (__atomic_exchange_n(&g_done_lock, 1, __ATOMIC_ACQUIRE)) {
+        if (ds_active())
+            ds_point();
+        else
+            sched_yield();
+    }
+}
 static void notify_done(void)
 {
+    if (!ALOAD(g_main_waiting))
+        return;
+    done_lock();
     if (ALOAD(g_main_waiting) && all_done())
         (void)ABT_eventual_set(g_done_ev, NULL, 0); /* a second set fails harmlessly */
+    __atomic_store_n(&g_done_lock, 0, __ATOMIC_RELEASE);
 }
 static void main_wait_all_done(void)
 {
+    /* blocking, never yield-polling: a polling primary ULT could starve the
+     * lower-priority pools of its own scheduler for ever */
     int rc = ABT_eventual_create(0, &g_done_ev);
     CHECK_RC(rc, "ABT_eventual_create");
     ASTORE(g_main_waiting, 1);
@@ -30,7 +48,11 @@ static void main_wait_all_done(void)
         rc = ABT_eventual_wait(g_done_ev, NULL);
         CHECK_RC(rc, "ABT_eventual_wait");
     }
+    done_lock();
     ASTORE(g_main_waiting, 0);
+    __atomic_store_n(&g_done_lock, 0, __ATOMIC_RELEASE);
+    rc = ABT_eventual_free(&g_done_ev);
+    CHECK_RC(rc, "ABT_eventual_free");
     if (!all_done())
         viol("harness eventual fired before every unit finished");
 }
@@ -160,6 +182,8 @@ static void op_create_ex(actor *a, int ui, int how, int xsi)
             rc = ABT_task_create(pool, fn, arg, u->named ? (ABT_task *)&u->h : NULL);
         CHECK_RC(rc, "ABT_task_create*");
     }
+    if (u->named)
+        ASTORE(u->h_valid, 1);
     if (u->named && !(how == 1 && u->freed))
         check_new_handle(u);
     hist(a, "created", ui, how, 0);
@@ -302,6 +326,8 @@ static void units_of_stream_must_be_done(int xi, const char *what)
         actor *u = &G.unit[i];
         if (!u->created || u->cancelled || u->cur_pool < 0)
             continue;
+        if (u->migr_pending)
+            continue; /* may have been moved to another stream's pool meanwhile */
         int p = u->cur_pool, only = 1, served = 0;
         if (G.pool[p].sub >= 0)
             continue;
@@ -310,8 +336,9 @@ static void units_of_stream_must_be_done(int xi, const char *what)
                 if (G.xs[x].pools[k] == p) {
                     if (x == xi)
                         served = 1;
-                    else if (G.xs[x].created && !G.xs[x].joined)
-                        only = 0;
+                    else
+                        only = 0; /* a pool that is shared at any time is outside the premise:
+                                   * the library stops counting its blocked units */
                 }
         if (served && only && (u->ends != u->incarnation || u->running))
             viol("%s of stream %d returned while unit u%d (pool %d, type %d) has not finished "
